@@ -93,7 +93,13 @@ def builtin_fn(ex, st, nm, e, cx, k):
     if nm == 'bool':
         return ex.ev(st, args[0], cx, lambda s, v: k(s, SV(BOOL, ex.truth(s, v))))
     if nm == 'str':
-        return ex.ev(st, args[0], cx, lambda s, v: k(s, v if v.ty.kind == 'str' else ex.fresh(STR, 'str')))
+        def fstr(s, v):
+            if v.ty.kind == 'str':
+                return k(s, v)
+            if v.ty.kind == 'cfg':
+                return k(s, ex.coerce(v, STR))
+            return k(s, ex.fresh(STR, 'str'))
+        return ex.ev(st, args[0], cx, fstr)
     if nm == 'hex':
         return ex.ev(st, args[0], cx, lambda s, v: k(s, ex.fresh(STR, 'hex')))
     if nm == 'ord':
